@@ -160,7 +160,11 @@ def tlc(ctx, module, cfg, *, workers=1, env=None, timeout=900, on=None, heap="6g
     ctx.runs.append(dict(run=name or (module + "/" + cfg), generated=res["generated"],
                          distinct=res["distinct"], seconds=res["seconds"], rc=p.returncode))
     if p.returncode != 0 and not allow_violation:
-        raise Infra("TLC exit %s on %s/%s:\n%s" % (p.returncode, module, cfg, "\n".join(tail[-25:])))
+        errs = []
+        for k, l in enumerate(tail):
+            if l.startswith("Error:") or "Exception" in l:
+                errs += tail[k:k + 4]
+        raise Infra("TLC exit %s on %s/%s:\n%s\n...\n%s" % (p.returncode, module, cfg, "\n".join(errs[:16]), "\n".join(tail[-8:])))
     return res
 
 
